@@ -17,7 +17,8 @@ BUDGET_S = {'quick': 120, 'thorough': 900}
 BOUNDS = {
     'quick': 'owner in {root build function, subbuild, build_file} returning or raising (caught by its caller); one straggler thread '
              'calling one of the 12 builder methods on the owner\'s builder; every schedule with at most 3 pre-emptions, yield '
-             'point = every library system call and lock acquire; also the straggler started strictly after the close',
+             'point = every library system call and lock acquire; also the straggler started strictly after the close (after the '
+             'build, and after the owner\'s function but inside the same build)',
     'thorough': 'pre-emption bound 4',
 }
 ASSUMPTIONS = ['thread switches only at environment calls and lock operations']
@@ -34,7 +35,8 @@ def families(tier):
     P = 3 if tier == 'quick' else 4
     return ([{'name': 'race', 'params': {'P': P, 'methods': COMPLEX}, 'weight': 3},
              {'name': 'race', 'params': {'P': P, 'methods': QUERIES}, 'weight': 3},
-             {'name': 'after-close', 'params': {'P': 0, 'methods': METHODS}, 'weight': 1}])
+             {'name': 'after-close', 'params': {'P': 0, 'methods': METHODS}, 'weight': 1},
+             {'name': 'after-owner', 'params': {'P': 0, 'methods': METHODS, 'owners': ['subbuild', 'build_file']}, 'weight': 1}])
 
 
 def read_cache_doc(w):
@@ -70,7 +72,8 @@ def records(doc):
 def harness(eng, fam, P):
     from file_builder import FileBuilder, FileComparison
     method = P['methods'][eng.choose('method', len(P['methods']))]
-    owner = OWNERS[eng.choose('owner', len(OWNERS))]
+    owners = P.get('owners', OWNERS)
+    owner = owners[eng.choose('owner', len(owners))]
     owner_raises = bool(eng.choose('owner_raises', 2))
     w = World(eng, ['x'], fixed={'in': 'D', 'in/f': 'F'}, sandbox=getattr(eng, 'sandbox', None))
     eng.path_info.update({'method': method, 'owner': owner, 'owner_raises': owner_raises, 'family': fam})
@@ -82,9 +85,16 @@ def harness(eng, fam, P):
         s = Sched(eng, P['P'])
         hook = install(w, s)
 
+        invoked = []
+
         def wr(b, fn):
+            invoked.append('wr')
             w.user_write(w.fs, fn, 9)
             return 1
+
+        def sbf(b3):
+            invoked.append('sb')
+            return 5
 
         def call(b2):
             try:
@@ -98,7 +108,7 @@ def harness(eng, fam, P):
                 elif method == 'build_file_with_comparison':
                     res['v'] = ('returned', b2.build_file_with_comparison(out, FileComparison.HASH, 'strag', wr))
                 else:
-                    res['v'] = ('returned', b2.subbuild('strag', lambda b3: 5))
+                    res['v'] = ('returned', b2.subbuild('strag', sbf))
             except RuntimeError as e:
                 res['v'] = ('RuntimeError', str(e)[:80])
             except Exception as e:
@@ -121,10 +131,15 @@ def harness(eng, fam, P):
                 return own_body(b)
             try:
                 if owner == 'subbuild':
-                    return b.subbuild('own', own_body)
-                return b.build_file(w.p('own.out'), 'own', own_body)
+                    r = b.subbuild('own', own_body)
+                else:
+                    r = b.build_file(w.p('own.out'), 'own', own_body)
             except Boom:
-                return 'caught'
+                r = 'caught'
+            if fam == 'after-owner':
+                # the owner's function is over, the build is not: a call on the leaked builder from the same thread
+                call(holder['b'])
+            return r
 
         def owner_thread():
             try:
@@ -159,7 +174,7 @@ def harness(eng, fam, P):
         else:
             mine = [r for r in recs if r[0] == 'build_file' and r[1] == out]
         info = {'result': v, 'records_of_the_call': mine, 'schedule': s.trace[:8]}
-        if fam == 'after-close':
+        if fam in ('after-close', 'after-owner'):
             eng.witness('straggler-after-close')
             eng.check('C17.call-after-close-not-rejected', v[0] == 'RuntimeError', sig + (v[0],), info=info)
         eng.check('C17.unexpected-exception', v[0] in ('returned', 'RuntimeError'), sig + (v[0],), info=info)
@@ -167,6 +182,7 @@ def harness(eng, fam, P):
             eng.witness('straggler-rejected')
             # rejected: no effect at all
             eng.check('C17.rejected-call-left-a-record', not mine, sig, info=info)
+            eng.check('C17.rejected-call-ran-user-function', not invoked, sig, info=dict(info, invoked=list(invoked)))
             if method in ('build_file', 'build_file_with_comparison'):
                 eng.check('C17.rejected-call-left-a-file', w.fs.kind(out) == ABSENT, sig, info=info)
                 eng.check('C17.rejected-call-left-a-directory', w.fs.kind(w.p('strag')) == ABSENT, sig, info=info)
